@@ -125,7 +125,15 @@ def run_case(ck: Check, camp, case: dict) -> None:
     if not res.ok:
         camp.hit(f"error:{res.error_type}")
         if res.error_type == "RecursionError":
-            ck.fail({**base, "mechanism": "recursion_error"}, case, f"RecursionError instead of a reported error: {res.error_msg}")
+            trig = "other"
+            if opts.get("collapse_root_models"):
+                # attribution for the recorded finding: the same document without --collapse-root-models is generated
+                o2 = {k: v for k, v in opts.items() if k != "collapse_root_models"}
+                r2 = e2e.run_generate(doc, input_file_type=ift, model=model, opts=o2, formatters=fm, timeout=15, target=target,
+                                      modular=bool(opts.get("treat_dot_as_module")) or case.get("modular", False))
+                if r2.ok:
+                    trig = "collapse_root_models"
+            ck.fail({**base, "mechanism": "recursion_error", "trigger": trig}, case, f"RecursionError instead of a reported error: {res.error_msg}")
         elif clean and not (fm and res.error_type in ("InvalidInput",)):
             ck.fail({**base, "mechanism": "error_on_supported_input", "error": res.error_type}, case,
                     f"well-formed input inside the documented feature set failed: {res.error_type}: {res.error_msg}")
